@@ -170,7 +170,7 @@ def generate(rng, prop, tier):
                             "form": rng.choice(["uri", "json", "dict", "pretty_b32", "pretty_hex", "raw", "uri_args", "lib_pretty", "object"]),
                         "direct": rng.random() < 0.4, "sep": rng.choice(["-", " ", False]), "kfmt": rng.choice(["base32", "hex", "base16"]),
                         "alt_label": rng.choice(["bob@example.org", "Ann Lee", "u/1&x=2", "ü@ö.example"]), "alt_issuer": rng.choice([None, "Example Corp", "a&b=c"]),
-                            "deco": rng.choice(["none", "lower", "spaces", "dashes", "pad", "mixed"]),
+                            "deco": rng.choice(["none", "lower", "spaces", "dashes", "pad", "mixed", "uspaces"]),
                             "factory": rng.choice(["stock", "same"]), "wallet": rng.choice(WALLET_FACTORIES)})
     for d in devices:
         if d["form"] == "uri" and not accounts[d["acct"]]["label"]:
@@ -237,7 +237,7 @@ def generate(rng, prop, tier):
                         "form": rng.choice(["uri", "json", "dict", "pretty_b32", "pretty_hex", "raw", "uri_args", "lib_pretty", "object"]),
                         "direct": rng.random() < 0.4, "sep": rng.choice(["-", " ", False]), "kfmt": rng.choice(["base32", "hex", "base16"]),
                         "alt_label": rng.choice(["bob@example.org", "Ann Lee", "u/1&x=2", "ü@ö.example"]), "alt_issuer": rng.choice([None, "Example Corp", "a&b=c"]),
-                        "deco": rng.choice(["none", "lower", "spaces", "dashes", "pad", "mixed"]),
+                        "deco": rng.choice(["none", "lower", "spaces", "dashes", "pad", "mixed", "uspaces"]),
                         "factory": rng.choice(["stock", "same"]), "wallet": rng.choice(WALLET_FACTORIES)})
         elif k == "hostile":
             ops.append({"op": "hostile", "acct": rng.randrange(n_acct),
@@ -256,6 +256,18 @@ def generate(rng, prop, tier):
     if prop == "C14" and rng.random() < (0.25 if tier == "thorough" else 0.03):
         ops.append({"op": "sweep", "acct": rng.randrange(n_acct), "period": rng.choice([1, 2, 3, 5]), "t0": rng.choice([0, 1, 7, 1000, 2 ** 31 - 3]),
                     "span": rng.choice([6, 10, 16]), "maxwin": rng.choice([2, 4, 7]), "digits": rng.choice([6, 6, 8])})
+    # a very wide acceptance window (C14): a helpdesk "accept anything from the last / next day" setting, shifted so that the
+    # device's counter lies more than 2^16 steps after the first eligible one -- every counter of the window is eligible
+    if prop == "C14" and rng.random() < 0.02 and t0 > 10 ** 8:
+        d = rng.randrange(len(devices))
+        a = devices[d]["acct"]
+        per = accounts[a]["period"]
+        steps = rng.choice([40000, 70000])
+        ops.append({"op": "resync", "dev": d})
+        ops.append({"op": "match_params", "acct": a, "window": steps * per, "skew": -(steps - 4000) * per})
+        ops.append({"op": "emit", "dev": d, "tform": "now", "delay": 0, "dup": None, "drop": False, "submit_as": "str", "tmode": "now", "live": True})
+        ops.append({"op": "advance", "dt": 0})
+        ops.append({"op": "match_params", "acct": a, "window": window_default, "skew": 0})
     # fault-free suffix for bounded liveness (C14): fresh codes from an in-sync device
     if prop == "C14" and rng.random() < 0.6:
         for _ in range(rng.randint(1, 4)):
@@ -380,6 +392,10 @@ def _decorate_key(s, deco):
         return s + "=" * ((8 - len(s) % 8) % 8)
     if deco == "mixed":
         return " " + "-".join(s[i:i + 5] for i in range(0, len(s), 5)).lower() + " "
+    if deco == "uspaces":
+        # blanks that are not ASCII (copied from a web page, typed on a phone): "whitespace is ignored" means these too
+        blanks = ["\u00a0", "\u2009", "\u202f", "\u3000", "\u2028", "\x85", "\x1c"]
+        return "".join(s[i:i + 4] + blanks[(i // 4) % len(blanks)] for i in range(0, len(s), 4))
     return s
 
 
@@ -531,6 +547,13 @@ class _World:
                 loader = {"uri": fac.from_uri, "json": fac.from_json, "dict": fac.from_dict}[form] if op.get("direct") else fac.from_source
                 try:
                     obj = loader(msg)
+                    if ctx.n_ops % 4 == 2:
+                        # the same serialised text is loaded a second time after the first loaded object has been changed by its
+                        # owner (re-keyed, relabelled): every load gives what the text says
+                        obj.key = b"somebody else's key!"
+                        obj.label, obj.issuer, obj.digits, obj.period = "changed", "Changed Corp", 9, 77
+                        obj = loader(msg)
+                        ctx.probe("same_source_loaded_twice")
                 except Exception as e:
                     ctx.fail("C15", "roundtrip-raises", f"{form}: from_source({msg!r}) raised {type(e).__name__}: {e}",
                              form=form, exc=type(e).__name__)
@@ -541,7 +564,7 @@ class _World:
                     k = _decorate_key(src.base32_key, deco)
                     fmt = "base32"
                     if ctx.n_ops % 3 == 1:
-                        k = k.encode("ascii")
+                        k = k.encode("utf-8")
                 elif form == "lib_pretty":
                     # the library's own pretty-printer (format x separator) must give something its constructor reads back
                     kf = op.get("kfmt", "base32")
